@@ -1,5 +1,6 @@
-//! Triage helper: probe '<m1 text>' ['<m2 text>'] prints, for every identifier token of m1, what
-//! goto_definition / references / hover say.
+//! Triage helper: probe '<m1 text>' ['<m2 text>' ['<sub/m2 text>']] prints, for every identifier token of m1, what
+//! goto_definition / references / hover say.  Workspace as in scopecheck: m1 in package `app`, m2 and sub/m2 in the
+//! package `lib` it depends on (PROBE_SHAPE=one-package: a single package).
 use ide::{FileId, FilePos, GotoDefinitionResult};
 use syntax::{NodeOrToken, SyntaxKind};
 use verif_harness::util::{catch, quiet_panics};
@@ -8,9 +9,11 @@ fn main() {
     let args: Vec<String> = std::env::args().collect();
     let m1 = args[1].clone();
     let m2 = args.get(2).cloned().unwrap_or_else(|| verif_harness::programs::LIB_TEXT.to_string());
-    let ws = verif_harness::workspace::single_package(&[("m1", &m1), ("m2", &m2)]);
+    let m3 = args.get(3).cloned().unwrap_or_else(|| verif_harness::programs::SUB_TEXT.to_string());
+    let shape = if std::env::var("PROBE_SHAPE").map_or(false, |s| s == "one-package") { verif_harness::workspace::Shape::OnePackage } else { verif_harness::workspace::Shape::TwoPackages };
+    let ws = verif_harness::workspace::gen_workspace(shape, &[("m1", &m1), ("m2", &m2), ("sub/m2", &m3)]);
     let a = ws.host.snapshot();
-    let texts = [m1.clone(), m2.clone()];
+    let texts = [m1.clone(), m2.clone(), m3.clone()];
     let parse = syntax::parse_module(&m1);
     println!("errors: {:?}", parse.errors());
     for el in parse.syntax_node().descendants_with_tokens() {
